@@ -377,7 +377,7 @@ def other_interps(draw, typ, supported_clefs_only=False):
     if typ == '**root':
         return draw(kern_interps(supported_clefs_only=supported_clefs_only))
     x = draw(st.integers(0, 7))
-    if x == 0:
+    if x in (0, 2):
         return draw(st.one_of(timesigs(), clefs(supported_only=supported_clefs_only), keysigs(), meters()))
     if x == 1:
         t = draw(st.sampled_from(['*staff1', '*staff2'] + BBOXES))
